@@ -28,6 +28,16 @@ def coq_lock():
             fcntl.flock(lk, fcntl.LOCK_UN)
 
 
+def pmap(fn, items, chunksize=None):
+    """Parallel map over forked workers (deterministic order)."""
+    import multiprocessing as mp
+    if len(items) < 8 or NPROC <= 1:
+        return [fn(x) for x in items]
+    ctx = mp.get_context('fork')
+    with ctx.Pool(min(NPROC, 16)) as pool:
+        return pool.map(fn, items, chunksize or max(1, len(items) // (NPROC * 4)))
+
+
 @contextlib.contextmanager
 def quiet():
     """Silence emdfile's prints / tqdm."""
@@ -352,7 +362,11 @@ def run_check(mod, tier, seed):
         corpus = load_corpus(prop)
         cases = list(corpus) + mod.cases(seed, tier)
         results = mod.run_all(cases, scratch)            # list of observations (JSON-able)
-        verdicts = [mod.oracle(c, o) for c, o in zip(cases, results)]   # None or dict(key, what)
+        herr = [r for r in results if isinstance(r, list) and r and isinstance(r[0], dict) and 'harness_error' in r[0]]
+        if herr:
+            broken.append({'kind': 'harness-error', 'n': len(herr), 'first': herr[0][0]['harness_error']})
+        verdicts = [None if (isinstance(o, list) and o and isinstance(o[0], dict) and 'harness_error' in o[0]) else mod.oracle(c, o)
+                    for c, o in zip(cases, results)]   # None or dict(key, what)
         mism = []
         corr_log = None
         n_corr = 0
